@@ -57,7 +57,12 @@ pub fn gen_slts_case(g: &mut Gen, _tier: Tier, allow_dummy: bool) -> TrainCase {
     // 25 %: start further along the first link
     let room = links[0].length - tp.length - 100.0;
     let init_offset_extra = if g.bool(0.25) && room > 50.0 { Gen::round(g.f64(1.0, room), 1) } else { 0.0 };
-    TrainCase { links, train, mode, trace: vec![], save_interval: Some(1), simulation_days: None, init_speed_zero: false, also_real_walk, scenario_year: None, and_parts: false, init_offset_extra, hand_assembled: false, init_offset_abs: None, timed_speed: 0.0 }
+    // 20 %: a friction brake that builds up over 5-60 s (the builder gives every train an instant
+    // brake; the type's own default is 60 s x 0.5) — the controller then has to start braking
+    // one look-ahead early, for every braking point inside the window
+    let share = 0.2;
+    let brake_ramp_up = if g.bool(share) { Some((g.grid(5.0, 60.0, 11), g.grid(0.3, 0.7, 4))) } else { None };
+    TrainCase { links, train, mode, trace: vec![], save_interval: Some(1), simulation_days: None, init_speed_zero: false, also_real_walk, scenario_year: None, and_parts: false, init_offset_extra, hand_assembled: false, init_offset_abs: None, timed_speed: 0.0, brake_ramp_up }
 }
 
 pub fn speed_case_of(case: &TrainCase) -> SpeedCase {
@@ -150,8 +155,22 @@ pub fn check_c03_run_opts(case: &TrainCase, run: &TrainRun, cx: &mut Ctx, timed:
             eprintln!("DUMP curve deviation: {d}");
         }
     }
-    let curve_bad = curve_dev.1.is_some();
-    const CURVE_BAD: &str = ":braking-curve-not-brake-plus-resistance";
+    let look_dev = if timed { (0, None) } else { lookahead_deviation(case, run) };
+    cx.count("brake_look_ahead_steps_checked", look_dev.0 as u64);
+    cx.label_if(case.brake_ramp_up.is_some(), "friction_brake_with_build_up_time");
+    cx.label_if(look_dev.0 > 0, "brake_look_ahead_compared_with_reference");
+    if let Some(d) = &look_dev.1 {
+        cx.label("target_ignores_a_braking_point_inside_the_look_ahead");
+        if std::env::var("VERIF_LOOK_FAIL").is_ok() {
+            cx.fail("C03|debug|look-ahead-deviation", d.clone());
+        }
+        if std::env::var("VERIF_DUMP").is_ok() {
+            eprintln!("DUMP look-ahead deviation: {d}");
+        }
+    }
+    let curve_bad = curve_dev.1.is_some() || look_dev.1.is_some();
+    #[allow(non_snake_case)]
+    let CURVE_BAD: &str = if curve_dev.1.is_some() { ":braking-curve-not-brake-plus-resistance" } else { ":target-ignores-a-braking-point-inside-the-brake-look-ahead" };
     let window_class = |sc: &SpeedCase, b: &[f64], x: f64| {
         if curve_bad {
             return CURVE_BAD;
@@ -366,7 +385,7 @@ fn check_timed(dc: &crate::props::corridor::DispatchCase, cx: &mut Ctx) {
         let spec = &dc.trains[ti].train;
         let route: Vec<usize> = path.iter().map(|p| p.link_idx.idx()).collect();
         let links = route_specs(&dc.net, &b.corridor, &route, spec.train_type);
-        let tc = TrainCase { links, train: spec.clone(), mode: 3, trace: vec![], save_interval: Some(1), simulation_days: None, init_speed_zero: false, also_real_walk: false, scenario_year: None, and_parts: false, init_offset_extra: 0.0, hand_assembled: false, init_offset_abs: None, timed_speed: 0.0 };
+        let tc = TrainCase { links, train: spec.clone(), mode: 3, trace: vec![], save_interval: Some(1), simulation_days: None, init_speed_zero: false, also_real_walk: false, scenario_year: None, and_parts: false, init_offset_extra: 0.0, hand_assembled: false, init_offset_abs: None, timed_speed: 0.0, brake_ramp_up: None };
         let mut sim = b.slts[ti].clone();
         sim.set_save_interval(Some(1));
         let mut run = TrainRun::empty_pub();
